@@ -50,7 +50,13 @@ def used_object(a, dt):
 HISTORY = {"on": False}
 
 
+_SE = [0]
+
+
 def sig(variant, a, dt, lo, hi, se=True):
+    se_py = bool(se)
+    _SE[0] += 1
+    se = [bool(se), np.bool_(se), int(bool(se))][_SE[0] % 3]          # the flag as python bool / numpy bool / int
     """returns (raised, t0, t1) or (raised, dur)"""
     import eqsig
     from eqsig import im
@@ -76,8 +82,8 @@ def sig(variant, a, dt, lo, hi, se=True):
         else:
             r = im.calc_sig_dur(mk(), start=lo, end=hi, im=as_callable(im.calc_cav), se=se)
     except IndexError:
-        return (1, 0.0, 0.0) if se else (1, 0.0)
-    return (0, float(r[0]), float(r[1])) if se else (0, float(r))
+        return (1, 0.0, 0.0) if se_py else (1, 0.0)
+    return (0, float(r[0]), float(r[1])) if se_py else (0, float(r))
 
 
 class _Measure(object):
